@@ -96,6 +96,28 @@ fn stepover_variant(len: usize, idx: u64, flags: u64) -> Result<u64, (String, St
     Ok(calls)
 }
 
+/// scale: more than 2^16 executions (observer generations) on one simulator: a load, a store and then a branch-to-self stepped 70000 times with the
+/// observer compared after every step (variant 0: drained with take_mem_accesses; variant 1: only peeked with get_mem_accesses)
+fn long_variant(variant: u64) -> Result<u64, (String, String)> {
+    let (mut m, _) = program_machine(0, 0, 0);
+    // LD R0,+2 ; ST R0,+2 ; BRnzp to itself: the first two instructions and their data are touched once, 70000 generations before the end
+    for (k, w) in [0x2002u16, 0x3002, 0x0FFF, 0x1234, 0x0000].iter().enumerate() { m.pokes.push((0x3000 + k as u16, *w)); }
+    let mut p = build(&m);
+    let mut prev: Vec<u16> = vec![];
+    for step in 0..70_000u64 {
+        if variant == 0 { step_compare(&mut p, true).map_err(|(s, d)| (s, format!("step {step} of the LD/ST/BR loop (observer drained after every step): {d}")))?; }
+        else {
+            step_compare(&mut p, false).map_err(|(s, d)| (s, format!("step {step}: {d}")))?;
+            let mut exp: BTreeMap<u16, (bool, bool)> = BTreeMap::new();
+            for a in &p.rf.log { let e = exp.entry(a.addr).or_default(); if a.write { e.1 = true; } else { e.0 = true; } }
+            for (a, e) in &exp { let g = p.sim.observer.get_mem_accesses(*a); if g.read() != e.0 || g.written() != e.1 { return Err(("observer:long:flags".into(), format!("step {step} of the LD/ST/BR loop (observer only peeked): x{a:04X} marked read={} written={}, the step read={} wrote={}", g.read(), g.written(), e.0, e.1))); } }
+            for a in &prev { if !exp.contains_key(a) && p.sim.observer.get_mem_accesses(*a).accessed() { return Err(("observer:long:stale".into(), format!("step {step} of the LD/ST/BR loop (observer only peeked): x{a:04X} was accessed by an earlier step only but is marked {:?}", p.sim.observer.get_mem_accesses(*a)))); } }
+            prev = vec![0x3000, 0x3001, 0x3002, 0x3003, 0x3004];
+        }
+    }
+    Ok(70_000)
+}
+
 /// Peek variant: a front end that reads the observer between steps with the non-draining `get_mem_accesses` (step_in clears the
 /// observer itself): after every step each address the step accessed carries exactly its flags, and every address the previous
 /// step accessed but this one did not is back to empty.
@@ -178,6 +200,10 @@ pub fn run(ctx: &Ctx) -> Report {
         });
         rep.absorb(r);
     }
+    for variant in 0..2u64 {
+        rep.acc.evals += 1; rep.acc.count("long_generation_runs", 1);
+        match long_variant(variant) { Ok(n) => { rep.acc.transitions += n; rep.acc.nontrivial += 1; } Err((sig, d)) => if sig.starts_with("observer") || sig.starts_with("panic") { rep.acc.violation(sig, format!("long:{variant}"), d) } }
+    }
     rep.bound("contexts", Json::i(nctx)); rep.bound("program_length", Json::i(maxlen as u64));
     rep.require(rep.acc.get("s2_run_programs") > 1000, "run-level comparison exercised");
     rep.assume("non-strict mode (property precondition); RefLC3 access log is the oracle (assumptions A1-A10)");
@@ -189,6 +215,7 @@ pub fn replay(case: &str) -> Option<String> {
     let r = match *p.first()? {
         "s1" => s1(n(1)?, n(2)? as u16, true).map(|_| ()),
         "s2" => match n(4)? { 0 => s2(n(1)? as usize, n(2)?, n(3)?, true).map(|_| ()), 1 => run_variant(n(1)? as usize, n(2)?, n(3)?).map(|_| ()), 2 => peek_variant(n(1)? as usize, n(2)?, n(3)?).map(|_| ()), _ => stepover_variant(n(1)? as usize, n(2)?, n(3)?).map(|_| ()) },
+        "long" => long_variant(n(1)?).map(|_| ()),
         "sr" => peek_selfref(n(1)? as usize, n(2)?, n(3)?).map(|_| ()),
         _ => return None,
     };
